@@ -103,7 +103,8 @@ impl Runner {
             }
         }
         if let Some((_, t)) = texts.first() {
-            if self.distinct.insert(t.clone()) && t.len() + 40 <= self.trace_bytes {
+            // wide values nest deeper (as cons chains) than the JSON reader of TLC admits (255 levels): native check only
+            if self.distinct.insert(t.clone()) && t.len() + 40 <= self.trace_bytes && src != "wide" {
                 self.trace_bytes -= t.len() + 40;
                 self.trace.push(json!({"ev":"printed","exp":vj,"ro":default_parse_opts_json(),"text":bytes_j(t),"src":src}));
             }
@@ -149,6 +150,9 @@ pub fn run(cfg: &J) -> J {
     }
     for pv in gen::probe_values() {
         r.one(&pv, "probe", None);
+    }
+    for wv in gen::wide_values() {
+        r.one(&wv, "wide", None);
     }
     let mut g = gen::Gen::new(cfg["seed"].as_u64().unwrap_or(1));
     g.max_depth = 5;
